@@ -91,7 +91,7 @@ func c10Run(c *vh.Ctx, r *vh.Rng, k int, table []fertRow, root string, acc *c10a
 		last = az + 1 // run.go:137-139: the run is extended to the day after the annual output date
 	}
 	s0 := start.Z()
-	pct := []int{100, 100, 50, 75, 120, 33}[r.Intn(6)]
+	pct := []int{100, 100, 50, 75, 120, 33, 0, 0, 1, 250}[r.Intn(10)] // 0 = the unfertilised control scenario
 	p.Cfg["Fertilization"] = strconv.Itoa(pct)
 	factor := float64(pct) / 100
 	p.SetFormat(format, end, annD, annM)
